@@ -1478,7 +1478,6 @@ def run(chk):
         lap('generate')
         chk.add_tlc(mc.result())
         lap('model_check')
-    lap('generate')
     allb = behs + sim
     res = pool_map(_replay_raw, allb)
     lap('replay')
